@@ -176,9 +176,27 @@ def mutations(tokens):
             yield tokens[:i] + [r] + tokens[i:]
 
 
+def check_sequence(case):
+    """Items rendered and parsed back one after the other in one process: what an earlier item left behind (a cache keyed by the
+    character, a shared buffer) must not change the text of a later one."""
+    out = []
+    for d in case["descs"]:
+        r = check_roundtrip({"kind": "rt", "desc": d})
+        for sig, det in r["v"]:
+            det = dict(det)
+            det["case"] = case
+            det["failing_member"] = d
+            out.append((sig + "|after-other-items", det))
+        if out:
+            break
+    return {"v": out, "nt": True}
+
+
 def check_case(case):
     if case["kind"] == "rt":
         return check_roundtrip(case)
+    if case["kind"] == "rt_seq":
+        return check_sequence(case)
     if case["kind"] == "texts":
         return check_texts(case)
     return check_tokens(case)
@@ -198,6 +216,11 @@ def cases(ctx):
         for k in (2, n) if not thorough else range(2, n + 1):
             for combo in itertools.product(alpha, repeat=k):
                 yield {"kind": "rt", "desc": {"code": code, "vals": list(combo)}}
+    # the same characters through A and through J one after the other in one process (latin-1 and JIS-8 share characters that have
+    # different byte values: yen sign, overline), both orders; also with B in between
+    singles = {c: [{"code": c, "vals": [b]} for b in range(256)] for c in ("A", "J", "B")}
+    for order in (("A", "J"), ("J", "A"), ("A", "B", "J"), ("J", "B", "A")):
+        yield {"kind": "rt_seq", "descs": [d for c in order for d in singles[c]]}
     for b in range(256):
         yield {"kind": "rt", "desc": {"code": "B", "vals": [b]}}
     mant = [0, 1, 0x400000, 0x7FFFFF]
